@@ -455,7 +455,16 @@ func extInDomain(proto int, e ext) (ext, bool) {
 	case "info":
 		attrs := 0
 		if e.hasIf {
-			if e.ifIdx <= 0 || e.ifIdx > 1<<32-1 || len(e.ifName) > 63 || !cleanName(e.ifName) || !inRange(e.ifMTU, 0, 1<<32-1) {
+			if len(e.ifName) > 63 {
+				// the 64-octet name field holds at most 63 bytes: the rest is cut off — the neighbouring
+				// objects must stay intact
+				full := e.ifName
+				e.ifName = full[:63]
+				if bytes.Equal(e.zone, full) {
+					e.zone = e.ifName
+				}
+			}
+			if e.ifIdx <= 0 || e.ifIdx > 1<<32-1 || !cleanName(e.ifName) || !inRange(e.ifMTU, 0, 1<<32-1) {
 				return e, false
 			}
 			attrs |= 8
@@ -494,7 +503,10 @@ func extInDomain(proto int, e ext) (ext, bool) {
 		}
 		switch e.typ {
 		case 1:
-			return e, len(e.name) <= 255 && cleanName(e.name) && e.index == 0 && e.afi == 0 && len(e.addr) == 0
+			if len(e.name) > 256 {
+				e.name = e.name[:256] // Len caps the name at 255 -> 256 payload bytes; the rest is cut off
+			}
+			return e, cleanName(e.name) && e.index == 0 && e.afi == 0 && len(e.addr) == 0
 		case 2:
 			return e, len(e.name) == 0 && inRange(e.index, 0, 1<<32-1) && e.afi == 0 && len(e.addr) == 0
 		case 3:
@@ -857,6 +869,33 @@ func exec(ops []string, o *vu.Out) {
 			o.Op(op, res)
 			if res == "panic" {
 				o.Fail("", "ParseMessage panicked on "+op)
+			}
+		case "phdr2":
+			a, b := k.bytes(), k.bytes()
+			if k.bad || len(k.t) != 0 {
+				o.Op(op, "bad-op")
+				continue
+			}
+			// Header.Parse into a Header that already holds the result of an earlier Parse
+			var fresh string
+			res := vu.Catch(func() string {
+				h := new(ipv4.Header)
+				_ = h.Parse(a)
+				if err := h.Parse(b); err != nil {
+					return "perr-" + herr(err)
+				}
+				return "ok " + renderHeader(h)
+			})
+			o.Op(op, res)
+			fresh = vu.Catch(func() string {
+				h, err := ipv4.ParseHeader(b)
+				if err != nil {
+					return "perr-" + herr(err)
+				}
+				return "ok " + renderHeader(h)
+			})
+			if res != fresh {
+				o.Fail("", fmt.Sprintf("Header.Parse into a re-used Header differs from a fresh parse: %s vs %s", res, fresh))
 			}
 		case "phdr":
 			b := k.bytes()
